@@ -4,7 +4,7 @@ from common import *
 from arraylib import *
 from modelbridge import Bridge
 
-SIZES_BLK = [0, 1, 1023, 1024, 1025, 2048, 3000, 4096, 5000]
+SIZES_BLK = [0, 1, 1023, 1024, 1025, 2048, 3000, 4096, 5000, 8192]
 
 
 def gen_history(rng, nd, ncmd):
@@ -25,10 +25,14 @@ def gen_history(rng, nd, ncmd):
                 ops.append(('move', d, n, 'd%d' % rng.randint(1, nd), rng.choice(names)))
             elif k < 0.85:
                 ops.append(('copy', d, n, 'd%d' % rng.randint(1, nd)))
-            elif k < 0.92:
+            elif k < 0.90:
                 ops.append(('append', d, n, rng.choice([1, 100, 1024, 2000])))
-            else:
+            elif k < 0.94:
                 ops.append(('truncate', d, n, rng.choice([0, 1, 1024, 1500])))
+            elif k < 0.98:
+                ops.append(('corrupt', d, rng.getrandbits(16)))      # silent corruption of a synced block (size, mtime kept)
+            else:
+                ops.append(('wipedisk', d))                          # every file of the disk disappears at once
         c = rng.random()
         if c < 0.45:
             ops.append(('sync',))
@@ -49,22 +53,24 @@ def gen_history(rng, nd, ncmd):
 class Hist:
     """one array driven through a history, with the invariant oracles applied after every tool command"""
 
-    def __init__(self, chk, binary, shim, model, rng, nd, np_, zmode=False, with_model=True):
+    def __init__(self, chk, binary, shim, model, rng, nd, np_, zmode=False, with_model=True, hasher=None):
         self.chk, self.rng = chk, rng
         self.arr = Array(binary, nd=nd, np_=np_, shim=shim, zmode=zmode)
         self.br = Bridge(self.arr)
         self.model = model
+        self.hasher = hasher
         self.with_model = with_model and not zmode
         self.ncmds = 0
         self.nstripes_checked = 0
         self.model_steps = 0
         self.log = []
         self.have_content = False
+        self.rinfo = {}
 
     def fs_op(self, op):
         a = self.arr
         k = op[0]
-        p = a.path(op[1], op[2])
+        p = a.path(op[1], op[2]) if len(op) > 2 and isinstance(op[2], str) else None
         if k == 'write':
             a.write(op[1], op[2], self.rng.randbytes(op[3]))
         elif k == 'remove':
@@ -95,6 +101,38 @@ class Hist:
         elif k == 'truncate':
             if os.path.isfile(p):
                 a.write(op[1], op[2], open(p, 'rb').read()[:op[3]])
+        elif k == 'corrupt':
+            base = os.path.join(a.root, op[1])
+            files = sorted(os.path.join(r, n) for r, _, fs in os.walk(base) for n in fs if os.path.getsize(os.path.join(r, n)) > 0)
+            if files:
+                q = files[op[2] % len(files)]
+                st = os.stat(q)
+                data = bytearray(open(q, 'rb').read())
+                off = (op[2] * 7919) % len(data)
+                for i in range(off, min(len(data), off + 20)):
+                    data[i] ^= 0x5a
+                with open(q, 'r+b') as f:
+                    f.write(data)
+                os.utime(q, ns=(st.st_atime_ns, st.st_mtime_ns))
+                # damage to a synced file is NOT a version; but if this very version was never synced, the bytes now on
+                # disk are simply the version the next sync will record
+                rel = os.path.relpath(q, base)
+                synced = False
+                try:
+                    c = a.content()
+                    for f in c['disks'].get(op[1], {'files': []})['files']:
+                        if f['sub'].decode('latin1') == rel and f['size'] == len(data) and f['sec'] == st.st_mtime_ns // 10**9 \
+                                and all(b[0] == 'BLK' for b in f['blocks']):
+                            synced = True
+                except Exception:
+                    pass
+                if not synced:
+                    vs = a.store.get((op[1], rel), [])
+                    a.store[(op[1], rel)] = [v for v in vs if not (len(v[0]) == len(data) and v[1] == st.st_mtime_ns)] + [(bytes(data), st.st_mtime_ns)]
+        elif k == 'wipedisk':
+            base = os.path.join(a.root, op[1])
+            for n in os.listdir(base):
+                a.remove(op[1], n)
         self.log.append(list(op))
 
     def invariants(self, what):
@@ -112,7 +150,7 @@ class Hist:
         perr, n = a.check_parity(st)
         self.nstripes_checked += n
         for e in (errs + perr)[:3]:
-            self.chk.violation('inv', 'after `%s`: %s' % (what, e), {'history': self.log, 'array': 'nd=%d np=%d' % (a.nd, a.np), 'error': e})
+            self.chk.violation('inv', 'after `%s`: %s' % (what, e), dict(self.rinfo, history=self.log, error=e))
         return st
 
     def tool(self, op):
@@ -136,8 +174,8 @@ class Hist:
             self.log.append(['fix', '-m', r.rc])
             # whatever fix created (restored files, *.unrecoverable) becomes a known version
             for (dd, rel), v in a.snapshot_data().items():
-                if v[0] == 'f':
-                    a.note_version(dd, rel)
+                if v[0] == 'f' and not any(len(x[0]) == len(v[1]) and x[1] == v[2] for x in a.store.get((dd, rel), [])):
+                    a.note_version(dd, rel)      # (a silently corrupted file keeps size+mtime of a known version: not a new version)
             self.invariants('fix -m')
             return
         args = list(op)
@@ -210,7 +248,7 @@ class Hist:
         errs = a.check_map(st1)
         perr, n = a.check_parity(st1)
         for e in (errs + perr)[:3]:
-            self.chk.violation('inv_kill', 'after a sync killed before its first parity write: %s' % e, {'history': self.log, 'error': e})
+            self.chk.violation('inv_kill', 'after a sync killed before its first parity write: %s' % e, dict(self.rinfo, history=self.log, error=e))
         br.learn_hashes(st1)
         # model parity length follows the real files (sync resized them before being killed)
         npos = max([len(a.parity_bytes(l)) // a.bs for l in range(a.np)] + [0])
@@ -236,6 +274,8 @@ class Hist:
         except Exception:
             return
         br.learn_hashes(st2)
+        if self.hasher:
+            br.compute_hashes(self.hasher, st1)
         blockmax = st1['blockmax']
         mx = blockmax if (cnt == 0 or start + cnt >= blockmax) else start + cnt
         # `now` only matters for the info time: take it from the real result
@@ -292,6 +332,7 @@ def main(tier, replay=None):
     try:
         binary = build_tool(snap)
         shim = build_shim(snap)
+        hasher = build_driver(snap, 'hash_drv.c', ['cmdline/util.c', 'cmdline/stream.c', 'cmdline/support.c', 'cmdline/elem.c', 'cmdline/unix.c', 'raid/memory.c', 'tommyds/tommy.c'], 'hash_drv', libs=['-lblkid'])
     except BuildError as e:
         chk.violation('build', 'working tree does not build: ' + str(e)[:500], {'error': str(e)}, no_input=True)
         return chk.finish()
@@ -301,7 +342,20 @@ def main(tier, replay=None):
                     'extraction + ocaml/C06/driver.ml', 'harness/py/{arraylib,modelbridge,content,gfref}.py (independent content decoder and parity checker)', 'harness/c/shim.c'])
     model = build_model('Extract/Extract_C06.vo', 'ocaml/C06', 'c06_ext', 'driver.ml', 'model')
     rng = chk.rng
-    nh = 10 if tier == 'quick' else 60
+    if replay:
+        rp = json.load(open(replay))['replay']
+        H = Hist(chk, binary, shim, model, random.Random(rp['seed']), rp['nd'], rp['np'], hasher=hasher)
+        H.rinfo = {'nd': rp['nd'], 'np': rp['np'], 'seed': rp['seed'], 'ops': rp['ops']}
+        H.run([tuple(o) for o in rp['ops']])
+        print('replayed history on', H.arr.root, '(kept for inspection)' if os.environ.get('VERIF_KEEP') else '')
+        for l in H.log:
+            print('  ', l)
+        if not os.environ.get('VERIF_KEEP'):
+            shutil.rmtree(H.arr.root, ignore_errors=True)
+        chk.cov.update({'evaluations': H.ncmds, 'distinct_nontrivial': max(2, H.ncmds), 'rule': 'replay of one recorded history'})
+        chk.cov['samples'] = [rp['ops'][:10]]
+        return chk.finish()
+    nh = 40 if tier == 'quick' else 300
     total_cmds = total_stripes = total_model = 0
     samples = []
     import concurrent.futures as cf
@@ -314,7 +368,8 @@ def main(tier, replay=None):
 
     def one(hh):
         nd, np_, ops, seed = hh
-        H = Hist(chk, binary, shim, model, random.Random(seed), nd, np_)
+        H = Hist(chk, binary, shim, model, random.Random(seed), nd, np_, hasher=hasher)
+        H.rinfo = {'nd': nd, 'np': np_, 'seed': seed, 'ops': ops}
         H.run(ops)
         shutil.rmtree(H.arr.root, ignore_errors=True)
         return H
